@@ -156,3 +156,75 @@ GET_INDEX = _fwd("_RowView.get_index", "self.table")
 
 CONTRACTS = [SPLIT]
 VARIANTS = [BY_POSITION, BY_TEXT, BY_PAIR, BY_TRIPLE, OTHER, FLOORDIV, GET_INDEX]
+
+
+# ---- the designator blocks INSIDE Table.__getitem__ / Table.__setitem__ (ninth session) ---------------------------------------------------------
+# t[col, row] and t[col, row] = v do not call _get_row_index: each has its own copy of the dispatch
+#     if isinstance(row, str):   cache lookup of (row, 0) first, else split + _get_row_cache_raise
+#     elif isinstance(row, tuple): cache lookup of the tuple first, else _get_row_cache_raise(*row)
+#     elif slice / list ...        (row SELECTORS: C08)          else: idx = row
+# The compound statement is extracted mechanically as a block (anchor: its first line) and verified once per designator form: after it, `idx` is
+# the position the statement assigns to the designator -- the same specification term as for _get_row_index -- or KeyError is raised exactly when there
+# is no such occurrence.  The shortcut through the lookup table must AGREE with the parsed reading: for a text this needs that a text which IS a row name
+# parses to itself (spelling 1 of the proved splitter, names being free of ':' '<' '>'): precondition `row-names-are-plain`.
+from pyvc.table_engine import pair, is_pair, int_v      # noqa: E402
+
+x_ = z3.Const("x!dgb", V)
+
+
+def _names_plain(s):
+    """every text that occurs in the current index column parses to (itself, no count, offset 0)"""
+    f = cp(s.self)
+    n = col_of(s.self).n
+    return z3.ForAll([x_], z3.Implies(f(x_, n) > 0, z3.And(p_name(x_) == x_, z3.Not(p_has_count(x_)), p_off(x_) == 0)), patterns=[f(x_, n)])
+
+
+def _tuple_is_key(s, k):
+    """a designator tuple used as a dictionary key IS the key the lookup table uses for (name, count): Python tuples are equal and hash alike
+    component-wise; a triple is never equal to a pair"""
+    t = s.row.t
+    if k == 2:
+        return z3.And(t == pair(tup_item(t, 0), tup_item(t, 1)), tup_item(t, 1) == int_v(v_int(tup_item(t, 1))))
+    return z3.Not(is_pair(t))
+
+
+def _idx_term(n):
+    v = n.idx
+    if isinstance(v, PyOpt):
+        v = v.value
+    return v.t if isinstance(v, PyInt) else v_int(v.t)
+
+
+def _block_variant(fn, form, requires, arity=None):
+    grc = GET_ROW_CACHE_RAISE
+    scan = dict(grc.ensures)["scan-position"]
+    when = grc.raises["KeyError"]["when"]
+
+    class R:      # the block has no result: `idx` plays its role
+        def __init__(self, t):
+            self.t = t
+    return Contract(
+        module=M, qualname=fn, params=dict(self=TTable, row=TV),
+        requires=[("CacheOK", lambda s: cache_field_ok(s.self))] + requires,
+        axioms=[lambda s: cntp_axioms(s.self)],
+        ensures=[("idx is the designated occurrence on the current index column, shifted by the offset", lambda o, n, r: scan(_as_cache_call(o, form), n, R(_idx_term(n)))),
+                 ("CacheOK", lambda o, n, r: cache_field_ok(n.self))],
+        raises={"KeyError": dict(when=lambda s: when(_as_cache_call(s, form)), exact=True,
+                                 post=[("CacheOK", lambda o, n: cache_field_ok(n.self))],
+                                 modifies=("self._index_cache", "self._count_cache", "self._names_cache"))},
+        modifies=("self._index_cache", "self._count_cache", "self._names_cache"),
+        min_obligations=4,
+        extra=dict(engine=DesigEngine, variant="designator-block-" + form, prune_unsupported=True, star_arity=arity, frame_ghosts=False,
+                   block=dict(first="if isinstance(row, str):", count=1)),
+        note="block contract: the row-designator dispatch inside " + fn)
+
+
+_req_text = [("row-is-a-text", lambda s: z3.And(is_str(s.row.t), z3.Not(is_int(s.row.t)), z3.Not(is_tuple(s.row.t)))), ("row-names-are-plain", _names_plain)]
+_req_pair = [("row-is-a-pair (name, count)", lambda s: z3.And(is_tuple(s.row.t), z3.Not(is_int(s.row.t)), z3.Not(is_str(s.row.t)), tup_len(s.row.t) == 2)),
+         ("a pair designator is the lookup key of (name, count)", lambda s: _tuple_is_key(s, 2))]
+_req_triple = [("row-is-a-triple (name, count, offset)", lambda s: z3.And(is_tuple(s.row.t), z3.Not(is_int(s.row.t)), z3.Not(is_str(s.row.t)), tup_len(s.row.t) == 3)),
+           ("a triple is not a lookup key", lambda s: _tuple_is_key(s, 3))]
+BLOCKS = []
+for _fn in ("Table.__getitem__", "Table.__setitem__"):
+    BLOCKS += [_block_variant(_fn, "str", _req_text), _block_variant(_fn, "tuple2", _req_pair, 2), _block_variant(_fn, "tuple3", _req_triple, 3)]
+VARIANTS += BLOCKS
